@@ -41,6 +41,7 @@ func init() {
 
 // c01Oracle: the VM observation of an accepted program equals refsem's prediction.
 func c01Oracle(pc progCase, r *Result) {
+	markVolatile(pc, r)
 	a := Analyze(map[string]string{"main": pc.P.Text}, true)
 	if a.Obs.Class == "HOST-PANIC" {
 		r.Note("analyzer-panic(C05)", 1)
